@@ -279,6 +279,13 @@ fn gen_c08(r: &mut Rng, thorough: bool) -> Vec<Op> {
         if l.areas.is_empty() {
             continue;
         }
+        if r.chance(1, 5) {
+            let a = *r.pick(&l.areas);
+            if a.1 >= 8 {
+                let imm1 = r.next() as u32;
+                ops.push(Op::CodePatch { start: a.0, off: r.below(a.1 - 7), imm1, imm2: !imm1 ^ (r.next() as u32 & 0xff00), guest: r.chance(1, 2) });
+            }
+        }
         let i = r.usize(l.areas.len());
         let a = l.areas[i];
         match r.below(6) {
@@ -553,8 +560,20 @@ fn gen_c10(r: &mut Rng, thorough: bool) -> Vec<Op> {
             3 => {
                 let len = small_len(r);
                 total_bytes += len;
-                ops.push(Op::InitStack { len });
-                l.stack(len);
+                if r.chance(1, 3) {
+                    // System V start frame: one area per string, then the stack with room for the frame
+                    let argv: Vec<u64> = (0..r.below(4)).map(|_| r.below(24)).collect();
+                    let envp: Vec<u64> = (0..r.below(3)).map(|_| r.below(24)).collect();
+                    for n in argv.iter().chain(envp.iter()) {
+                        l.anywhere(n + 1);
+                    }
+                    let frame = (argv.len() + envp.len() + 3) as u64 * 8 + 32;
+                    l.stack(len + frame);
+                    ops.push(Op::ProgramStart { len, argv, envp });
+                } else {
+                    ops.push(Op::InitStack { len });
+                    l.stack(len);
+                }
             }
             4 => {
                 if l.areas.is_empty() {
